@@ -21,7 +21,7 @@ from . import explore
 from .program import Program, Unsupported
 from .scenarios import Finding, services_for, _exposed
 from .threads import Sched, TMachine
-from .world import World, RES_VALUES, cap
+from .world import World, RES_VALUES, SORTS, cap
 
 
 def mc_threads(prog: Program, ports_cfg, stats, cycles: int = 1, n_out: int = 1, max_preempt: int = 2,
@@ -84,9 +84,9 @@ def mc_threads(prog: Program, ports_cfg, stats, cycles: int = 1, n_out: int = 1,
                 if not machine.token_holder:
                     add(Finding('C11', f'{ev.name} reaches the component outside the dispatcher',
                                        {'events': list(events), 'key': 'C11:outside-dispatcher'}))
-                for i, (_fn, fdir, _ft) in enumerate(ev.formals):
+                for i, (fn_, fdir, ft) in enumerate(ev.formals):
                     if fdir != 'in' and isinstance(args[i], M.Loc):
-                        machine.store(args[i], 0)
+                        machine.store(args[i], M.Sym(w.fresh(SORTS[ft], f'w_{ev.name}_{fn_}')))
                 if ev.name == claim.name:
                     if not comp['claimed']:
                         comp['claimed'] = True
@@ -132,7 +132,8 @@ def mc_threads(prog: Program, ports_cfg, stats, cycles: int = 1, n_out: int = 1,
         def call_slot(slot_loc, ev, tag):
             m.push_frame('Vf', None, f'caller:{tag}')
             try:
-                args = [m.new_local(0, f'actual:{fn}') for fn, _d, _t in ev.formals]
+                args = [m.new_local(M.Sym(w.fresh(SORTS[ft], f'a_{tag}_{fn}')), f'actual:{fn}')
+                        for fn, _d, ft in ev.formals]
                 fv = m.load(slot_loc)
                 return m.call_funcv(fv, args, tag)
             finally:
